@@ -2429,4 +2429,185 @@ theorem holds_model (p : Prog) : holds p (model p) = true := by
     simp only [cCleanAfter, m6, m7, afterObs_eq, beq_self_eq_true, Bool.and_true, Bool.true_and, List.all_eq_true, beq_iff_eq]
     exact hobs
 
+/-! # The property theorems -/
+
+theorem clauses_hold (p : Prog) :
+    cBracket p (model p) = true ∧ cSequential p (model p) = true ∧ cSuccessIff p (model p) = true ∧
+    cTimeoutInterrupt p (model p) = true ∧ cCleanAfter p (model p) = true := by
+  have := holds_model p
+  simpa [holds, clauses] using this
+
+/-- **C14 (bracket).**  Exactly one outcome is reported between `startTest` and `stopTest`, and `run()` returns —
+for every program, timeout, interrupt, runner variant and logging option. -/
+theorem C14_bracket (p : Prog) :
+    ∃ X, (model p).events = [.startTest, X, .stopTest] ∧ isOutcome X = true ∧ (model p).raised = false := by
+  have h := (clauses_hold p).1
+  simp only [cBracket] at h
+  split at h
+  · rename_i x heq
+    simp only [Bool.and_eq_true, Bool.not_eq_true'] at h
+    exact ⟨x, heq, h.1, h.2⟩
+  · cases h
+
+/-- names of the stages that ran = a prefix of the path's names; no stage starts before its predecessor is over -/
+theorem seqOk_reading : ∀ (pth : List (SName × Stage)) (log : List (SName × Nat × Nat)) (e : Option Nat),
+    seqOk pth log e = true →
+    (∃ fut, pth.map (·.1) = log.map (·.1) ++ fut) ∧
+    (∀ e0, e = some e0 → ∀ x ∈ log, e0 ≤ x.2.1) ∧
+    (∀ i (h1 : i + 1 < log.length) (h2 : i < pth.length),
+      ∃ d, delayOf pth[i].2.beh = some d ∧ log[i].2.1 + d ≤ log[i + 1].2.1)
+  | pth, [], _, _ => ⟨⟨pth.map (·.1), by simp⟩, by simp, by simp⟩
+  | [], _ :: _, _, h => by simp [seqOk] at h
+  | _ :: _, _ :: _, none, h => by simp [seqOk] at h
+  | (n, st) :: pth, (n', t, o) :: log, some e, h => by
+      simp only [seqOk, Bool.and_eq_true, beq_iff_eq, decide_eq_true_eq] at h
+      obtain ⟨⟨hn, hle⟩, hrest⟩ := h
+      obtain ⟨⟨fut, hf⟩, ih2, ih3⟩ := seqOk_reading pth log _ hrest
+      refine ⟨⟨fut, by simp [hn, hf]⟩, ?_, ?_⟩
+      · intro e0 he0 x hx
+        injection he0 with he0; subst he0
+        rcases List.mem_cons.mp hx with rfl | hx
+        · exact hle
+        · -- later stages start even later
+          cases hd : delayOf st.beh with
+          | none =>
+            rw [hd] at hrest
+            cases log with
+            | nil => cases hx
+            | cons y ys => cases pth <;> simp [seqOk] at hrest
+          | some d =>
+            rw [hd] at ih2
+            have := ih2 (t + d) rfl x hx
+            omega
+      · intro i h1 h2
+        cases i with
+        | zero =>
+          cases log with
+          | nil => simp at h1
+          | cons y ys =>
+            cases hd : delayOf st.beh with
+            | none => rw [hd] at hrest; cases pth <;> simp [seqOk] at hrest
+            | some d =>
+              rw [hd] at ih2
+              have := ih2 (t + d) rfl y List.mem_cons_self
+              exact ⟨d, by simpa using hd, by simpa using this⟩
+        | succ i =>
+          have := ih3 i (by simpa using h1) (by simpa using h2)
+          simpa using this
+
+/-- **C14 (sequential).**  The stages that run are a prefix of the program's path — `setUp`, then (iff `setUp` went
+well) the test and `tearDown`, then every registered cleanup, last registered first — and the next stage starts
+only when the Deferred of the previous one has fired: never after a stage that never fires, and not before the
+previous stage's start plus its delay. -/
+theorem C14_sequential (p : Prog) :
+    (∃ fut, (path p).map (·.1) = (model p).stages.map (·.1) ++ fut) ∧
+    (∀ i (h1 : i + 1 < (model p).stages.length) (h2 : i < (path p).length),
+      ∃ d, delayOf (path p)[i].2.beh = some d ∧ (model p).stages[i].2.1 + d ≤ (model p).stages[i + 1].2.1) := by
+  have h := (clauses_hold p).2.1
+  obtain ⟨h1, _, h3⟩ := seqOk_reading (path p) (model p).stages (some 0) h
+  exact ⟨h1, h3⟩
+
+/-- **C14 (success iff).**  The outcome is success **iff** the whole path ran and its last Deferred fired strictly
+before the timeout and not after a stop request (`inTime`), every stage that ran returned or fired cleanly, no
+expectation failed, no error logged to Twisted was left unflushed, no failed Deferred was dropped, and nothing
+the test scheduled was left in the reactor. -/
+theorem C14_success_iff (p : Prog) :
+    outcome (model p) = some .success ↔
+      (inTime p (model p) = true ∧ (∀ st ∈ ranStages p (model p), behOk st.beh = true) ∧
+       Side.expect ∉ sidesRan p (model p) ∧ loggedLeft (sidesRan p (model p)) = 0 ∧
+       Side.dropfailed ∉ sidesRan p (model p) ∧ (model p).leftover = 0) := by
+  have h := (clauses_hold p).2.2.1
+  simp only [cSuccessIff, beq_iff_eq] at h
+  have hb : (outcome (model p) == some Ev.success) = true ↔ outcome (model p) = some .success := by simp
+  rw [← hb, h]
+  simp only [Bool.and_eq_true, List.all_eq_true, Bool.not_eq_true', beq_iff_eq, List.contains_eq_mem,
+    decide_eq_false_iff_not, and_assoc]
+
+/-- **C14 (timeout / interrupt).**  If the run is not in time the outcome is an error; the result is asked to
+stop exactly when the run was ended by an interrupt (a stop request before the timeout instant, the chain not
+being over by then). -/
+theorem C14_timeout_interrupt (p : Prog) :
+    (inTime p (model p) = false → outcome (model p) = some .error) ∧
+    ((model p).stopRequested = true ↔ (inTime p (model p) = false ∧ ∃ s ∈ p.stops, s < p.timeout)) := by
+  have h := (clauses_hold p).2.2.2.1
+  simp only [cTimeoutInterrupt, Bool.and_eq_true, Bool.or_eq_true, beq_iff_eq] at h
+  obtain ⟨h1, h2⟩ := h
+  constructor
+  · intro hi
+    rcases h1 with h1 | h1
+    · rw [hi] at h1; cases h1
+    · exact h1
+  · rw [h2]
+    simp [List.any_eq_true]
+
+/-- **C14 (clean afterwards).**  After every run — success, failure, timeout or interrupt — the reactor has no
+pending delayed calls and Twisted's log observers are exactly those installed before (same order); while the test
+ran they were: unless suppressed the installed ones, the capturing one if logs are stored, the error observer. -/
+theorem C14_clean_after (p : Prog) :
+    (model p).pending = 0 ∧ (model p).obsRestored = true ∧ ∀ e ∈ (model p).stages, e.2.2 = duringCount p := by
+  have h := (clauses_hold p).2.2.2.2
+  simp only [cCleanAfter, Bool.and_eq_true, beq_iff_eq, List.all_eq_true] at h
+  exact ⟨h.1.1, h.1.2, h.2⟩
+
+/-- the log fixtures as list operations: whatever was installed comes back, in order -/
+theorem C14_observers_restored (p : Prog) : afterObs p = List.range p.nObs := afterObs_eq p
+
+/-- **C14 (in time ⇔ recorded).**  `inTime` (a statement about the program and the observed stage log) holds exactly
+when the chain's final Deferred fired while the spinner's timeout call was still pending, i.e. `Spinner.run`
+returned the chain's verdict instead of raising `TimeoutError` / `NoResultError`. -/
+theorem C14_in_time_iff_recorded (p : Prog) :
+    inTime p (model p) = true ↔ ∃ b, getResult (afterIter p).sp = .value b := by
+  obtain ⟨pre, hf⟩ := final_sem p
+  obtain ⟨⟨hi, _⟩, _, _⟩ := end_state p
+  have hlen : pre.length = (model p).stages.length := hf.len
+  obtain ⟨_, t2, t3, _, _⟩ := spec_terms p (model p) pre (future p (afterIter p).u) hf.path hlen
+  rw [inTime, Bool.and_eq_true, t2, t3]
+  have : (model p).stages = (afterIter p).u.stages := rfl
+  rw [this, ← hf.rec_iff]
+  rcases result_cases hi with h | h | h
+  · simp [h.2.1, h.2.2]
+  · simp [h.2.1, h.2.2]
+  · obtain ⟨b, hb1, hb2⟩ := h.2
+    simp [hb1, hb2]
+
+/-- **C14 (the loop ends).**  `reactor.run()` always ends because the reactor was crashed — by the chain's result,
+the timeout or an interrupt — within the fuel the model gives it, and when no result was recorded nothing that is
+still queued was due. -/
+theorem C14_loop_ends_by_crash (p : Prog) :
+    (afterIter p).crashed = true ∧
+    ((afterIter p).sp.success = none → ∀ c ∈ (afterIter p).calls, (afterIter p).now < c.time) :=
+  ⟨(end_state p).2.1, (end_state p).2.2⟩
+
+/-! ## non-vacuity: concrete programs, evaluated by the kernel -/
+
+def plain (beh : Beh) : MStage := { cleanups := [], stage := { sides := [], beh := beh } }
+def withSides (sides : List Side) (beh : Beh) : MStage := { cleanups := [], stage := { sides := sides, beh := beh } }
+
+def prog (timeout : Nat) (stops : List Nat) (suppress store : Bool) (nObs : Nat) (setUp body tearDown : MStage) : Prog :=
+  { timeout := timeout, stops := stops, broken := false, suppress := suppress, store := store, nObs := nObs,
+    setUp := setUp, body := body, tearDown := tearDown }
+
+def threeDeferreds : MStage := { cleanups := [{ sides := [], beh := .fire 1 }], stage := { sides := [], beh := .fire 2 } }
+
+/-- three Deferred-returning stages and a cleanup, in time: success -/
+example : (model (prog 10 [] true true 1 threeDeferreds (plain (.fire 3)) (plain .ret))).events
+    = [.startTest, .success, .stopTest] := by decide
+
+/-- the same, but the last Deferred fires exactly at the timeout instant: error -/
+example : (model (prog 6 [] true true 1 threeDeferreds (plain (.fire 3)) (plain .ret))).events
+    = [.startTest, .error, .stopTest] := by decide
+
+/-- an interrupt while the test method's Deferred is pending: error, and the result is asked to stop -/
+example : (model (prog 10 [3] true true 0 (plain .ret) (plain (.fire 5)) (plain .ret))).stopRequested = true := by decide
+
+/-- a logged error that is not flushed, a dropped failed Deferred, a leftover delayed call: each an error -/
+example : ((model (prog 10 [] true true 0 (plain .ret) (withSides [.logerr] .ret) (plain .ret))).events,
+           (model (prog 10 [] true true 0 (plain .ret) (withSides [.dropfailed] .ret) (plain .ret))).events,
+           (model (prog 10 [] true true 0 (plain .ret) (withSides [.junk 1] .ret) (plain .ret))).events)
+  = ([.startTest, .error, .stopTest], [.startTest, .error, .stopTest], [.startTest, .error, .stopTest]) := by decide
+
+/-- … but a logged error that is flushed is fine -/
+example : (model (prog 10 [] false false 2 (plain .ret) (withSides [.logerr, .flush] (.fire 1)) (plain .ret))).events
+    = [.startTest, .success, .stopTest] := by decide
+
 end TTV.Props.C14
